@@ -60,11 +60,27 @@ def sorted_scans(ctx, fi, it):
     return out
 
 
+def combination_scans(fi, it):
+    """for-loops over itertools.combinations(<frame>.iterrows(), 2): (loop, kind of pairing)."""
+    out = []
+    for n in ast.walk(fi.node):
+        if isinstance(n, ast.For):
+            v = it.value_of(n.iter)
+            if v is not None and v.combos_of is not None and v.combos_of[1] is not None and v.combos_of[1].ty == 'DataFrameIterrows':
+                out.append((n, v.combos_of[0]))
+    return out
+
+
 def check_scan_exits(ctx, rule, fi, it):
     cfg = ctx.cfg(fi.qualname)
     pm = parent_map(fi.node)
     scans = sorted_scans(ctx, fi, it)
     n_ob = 0
+    for loop, kind in combination_scans(fi, it):
+        own = [b for b in walk_no_nested(loop) if isinstance(b, ast.Break)]
+        n_ob += 1
+        ctx.ob(rule, fi, f'scan over {norm_text(loop.iter)}', True if not own else None,
+               'no early exit: every pair of rows is examined' if not own else 'a break leaves a scan over all pairs of rows')
     for loop, var, keys, fr in scans:
         breaks = [b for b in walk_no_nested(loop) if isinstance(b, ast.Break)]
         # only breaks whose innermost loop is this loop
@@ -218,6 +234,10 @@ def check(ctx):
                'a pair can be recorded although the later jump starts more than the window after the earlier one stops')
         ctx.ob('R4', where, norm_text(a) + ' [distance]', True if dist else und, 'a pair is collective when any site distance is below the cut-off' if dist else
                'a pair is recorded without the test that some site distance is below the cut-off')
+    for loop, kind in combination_scans(fi, it):
+        ctx.ob('R3', fi, loop.iter, True if kind == 'combinations' else False,
+               'itertools.combinations yields every unordered pair of rows once' if kind == 'combinations' else
+               f'itertools.{kind} pairs rows in both orders / with themselves: pairs are reported twice or a jump is paired with itself')
     if inner is not None:
         # R3 inner iterates events[i + 1:]
         src = inner[0].iter.func.value
